@@ -26,6 +26,7 @@ TrRead   == /\ IsEvent("read") /\ UNCHANGED m
             /\ ev.len = Len_(m) /\ ev.keys = SetSeq(Keys(m)) /\ ev.values = SetSeq(Values(m))
             /\ ev.bij = IsBij(m) /\ ev.perm = IsPerm(m)
             /\ (IsBij(m) => ev.inv = PairSeq(SmInverse(m)))
+            /\ ((~IsBij(m) /\ ev.inv_taken) => IsSection(m, ev.inv) /\ ev.inv_wf)
             /\ ev.eq_canon /\ ev.hash_canon /\ ev.cmp_canon_equal
             /\ \A i \in DOMAIN ev.gets : ev.gets[i][2] = Get(m, ev.gets[i][1])
 TrBin    == /\ IsEvent("bin") /\ UNCHANGED m
